@@ -159,6 +159,14 @@ Theorem apl_roundtrip : forall vs b A P,
 Proof. exact apl_roundtrip_thm. Qed.
 Print Assumptions apl_roundtrip.
 
+(* SVCB / HTTPS (parameter dictionary): in ServiceMode, or AliasMode without parameters *)
+Theorem svcb_roundtrip : forall prio target ps b A P,
+  (prio <> 0 \/ ps = []) ->
+  hand_encode_rdata HSvcb None [VS (VI prio); VS (VN target); VL ps] = Ok b ->
+  hand_decode_rdata HSvcb None (A ++ b ++ P) (length A) (length b) = Ok [VS (VI prio); VS (VN target); VL ps].
+Proof. exact svcb_roundtrip_thm. Qed.
+Print Assumptions svcb_roundtrip.
+
 (* ---------- non-vacuity: the hypotheses are satisfiable on realistic records ---------- *)
 Definition mx_schema := [FS (FU 2 65535); FS (FName true)].
 Definition mx_value := [VS (VI 10); VS (VN [[109; 97; 105; 108]; [101; 120]; []])].
@@ -247,3 +255,14 @@ Proof.
   split; [cbn; constructor; [left; reflexivity|constructor; [right; left; reflexivity|constructor]]|].
   eexists. split; vm_compute; reflexivity.
 Qed.
+
+Example svcb_example :
+  let v := [VS (VI 1); VS (VN [[115; 118; 99]; []]);
+            VL [[VI 0; VB [0; 1; 0; 3]]; [VI 1; VB [2; 104; 50]]; [VI 2; VB []]; [VI 3; VB [1; 187]]; [VI 4; VB [192; 0; 2; 1]]]] in
+  exists b, hand_encode_rdata HSvcb None v = Ok b /\ hand_decode_rdata HSvcb None b 0 (length b) = Ok v.
+Proof. eexists. split; vm_compute; reflexivity. Qed.
+(* a repeated key on the wire keeps the last value (dict semantics) and re-encodes shorter *)
+Example svcb_duplicate_key_normalised :
+  hand_decode_rdata HSvcb None [0; 1; 0; 0; 3; 0; 2; 0; 80; 0; 3; 0; 2; 1; 187] 0 15
+  = Ok [VS (VI 1); VS (VN [[]]); VL [[VI 3; VB [1; 187]]]].
+Proof. vm_compute. reflexivity. Qed.
